@@ -5,6 +5,9 @@ pub mod c02;
 pub mod c03;
 pub mod c04;
 pub mod c05;
+pub mod c06;
+pub mod c07;
+pub mod c08;
 pub mod c12;
 pub mod c14;
 pub mod textgen;
@@ -16,6 +19,9 @@ pub fn dispatch(id: &str, cfg: Config) -> i32 {
         "C03" => crate::run_prop(c03::C03, cfg),
         "C04" => crate::run_prop(c04::C04, cfg),
         "C05" => crate::run_prop(c05::C05, cfg),
+        "C06" => crate::run_prop(c06::C06, cfg),
+        "C07" => crate::run_prop(c07::C07, cfg),
+        "C08" => crate::run_prop(c08::C08, cfg),
         "C12" => crate::run_prop(c12::C12, cfg),
         "C14" => crate::run_prop(c14::C14, cfg),
         _ => {
